@@ -8,3 +8,8 @@ import FinProtoc.Props.C16
 #print axioms FinProtoc.Props.export_error
 #print axioms FinProtoc.Props.implicit_compile
 #print axioms FinProtoc.Props.explicit_subcommand
+#print axioms FinProtoc.Props.compile_files
+#print axioms FinProtoc.Props.compile_files_disjoint
+#print axioms FinProtoc.Props.compile_nowhere_else
+#print axioms FinProtoc.Props.compile_refuses
+#print axioms FinProtoc.Props.compile_accepts
